@@ -12,10 +12,12 @@
      sa:NAME:E,E,..|_   ia:NAME:E,E,..|_ (E = HEX or n)   ba:NAME:HEX
    Spec validation against the Go standard library (observation = plain ASCII):
      sp_dec A N | sp_hex2 A N | sp_hex4 A N | sp_hexnl A N   renderings of A..A+N-1 joined by ','
+     vw KIND HEX | vs KIND HEX | ve KIND fields   FastLog / String of views and table entries (see dispatch)
+     a token "st=op+op" is Struct(value) performing these calls, "st=n" is Struct(nil)
      sp_decz Z | sp_mac HEX | sp_ip HEX (netip.Addr.String) | sp_netip HEX (net.IP.String) | sp_bool T|F
    Columns: model observation, reference text of the line while every op fits ("-" otherwise),
    key of the recorded defect class of the first call that deviates from the property ("-" if none). *)
-From PV Require Import Base.Text Model.Fastlog Model.FastlogOps Spec.TextSpec.
+From PV Require Import Base.Text Model.Fastlog Model.FastlogOps Model.FastlogViews Spec.TextSpec.
 Open Scope string_scope.
 Open Scope N_scope.
 
@@ -83,6 +85,16 @@ Definition parse_op (tok : string) : option op :=
   | _ => None
   end.
 
+(* "st=n": Struct(nil); "st=op+op+..": Struct(value) whose FastLog performs these calls *)
+Definition parse_tok (tok : string) : option (list op) :=
+  match tok with
+  | String "s" (String "t" (String "=" rest)) =>
+      if String.eqb rest "n" || String.eqb rest "n2" then Some (flatten [VStruct None])
+      else option_map (fun os => flatten [VStruct (Some (map VOp os))])
+                      (all_some (map parse_op (Text.split "+"%char rest)))
+  | _ => option_map (fun o => [o]) (parse_op tok)
+  end.
+
 Fixpoint bytes_eqb (a b : bytes) : bool :=
   match a, b with
   | [], [] => true
@@ -142,8 +154,8 @@ Definition finish (towrite : bool) (a : acc) : string :=
   out3 m s (show_key (a_key a)).
 
 Definition run_from (towrite : bool) (a0 : acc) (toks : list string) : string :=
-  match all_some (map parse_op toks) with
-  | Some os => finish towrite (fold_left step os a0)
+  match all_some (map parse_tok toks) with
+  | Some oss => finish towrite (fold_left step (concat oss) a0)
   | None => BADARGS
   end.
 
@@ -161,7 +173,106 @@ Definition sp_range (f : N -> text) (args : list string) : string :=
   | _ => BADARGS
   end.
 
+Definition kind_of_tok (s : string) : option vkind :=
+  if String.eqb s "ether" then Some KEther else if String.eqb s "ip4" then Some KIP4
+  else if String.eqb s "ip6" then Some KIP6 else if String.eqb s "udp" then Some KUDP
+  else if String.eqb s "arp" then Some KARP else if String.eqb s "icmp" then Some KICMP
+  else if String.eqb s "echo" then Some KICMPEcho else if String.eqb s "rs" then Some KRS
+  else if String.eqb s "ra" then Some KRA else if String.eqb s "na" then Some KNA
+  else if String.eqb s "ns" then Some KNS else if String.eqb s "dhcp4" then Some KDHCP4
+  else if String.eqb s "dns" then Some KDNS else if String.eqb s "pause" then Some KPause
+  else if String.eqb s "ieee1905" then Some KIEEE1905 else None.
+
+(* MAC:IP:PORT *)
+Definition addr_of_tok (s : string) : option addr_t :=
+  match Text.split ":"%char s with
+  | [m; i; p] => match bytes_of_tok m, optbytes_of_tok i, N_of_dec p with
+                 | Some m', Some i', Some p' => Some (mkAddr m' i' p') | _, _, _ => None end
+  | _ => None
+  end.
+(* type:name:model:os:manufacturer:expire  (expire "z" = zero time) *)
+Definition name_of_tok (s : string) : option name_t :=
+  match Text.split ":"%char s with
+  | [t; n; m; o; f; e] =>
+      match bytes_of_tok t, bytes_of_tok n, bytes_of_tok m, bytes_of_tok o, bytes_of_tok f with
+      | Some t', Some n', Some m', Some o', Some f' =>
+          if String.eqb e "z" then Some (mkName t' n' m' o' f' None)
+          else option_map (fun e' => mkName t' n' m' o' f' (Some e')) (bytes_of_tok e)
+      | _, _, _, _, _ => None
+      end
+  | _ => None
+  end.
+Definition names_of_toks (l : list string) : option names_t :=
+  match map name_of_tok l with
+  | [Some a; Some b; Some c; Some d; Some e] => Some (mkNames a b c d e)
+  | _ => None
+  end.
+
+Definition entry_of (args : list string) : option view :=
+  match args with
+  | [k; a] =>
+      if String.eqb k "addr" then option_map VAddr (addr_of_tok a)
+      else if String.eqb k "name" then option_map VName (name_of_tok a)
+      else None
+  | [k; a; on; cap; st; mf; n1; n2; n3; n4; n5; ls] =>
+      if String.eqb k "host" then
+        match addr_of_tok a, bool_of_tok on, bool_of_tok cap, N_of_dec st, bytes_of_tok mf,
+              names_of_toks [n1; n2; n3; n4; n5], bytes_of_tok ls with
+        | Some a', Some on', Some cap', Some st', Some mf', Some ns, Some ls' =>
+            Some (VHost (mkHost a' on' cap' st' mf' ns ls'))
+        | _, _, _, _, _, _, _ => None
+        end
+      else None
+  | [k; m; cap; on; i4; gua; lla; off; hosts; ls; mf; n1; n2; n3; n4; n5] =>
+      if String.eqb k "mac" then
+        match bytes_of_tok m, bool_of_tok cap, bool_of_tok on, optbytes_of_tok i4, optbytes_of_tok gua with
+        | Some m', Some cap', Some on', Some i4', Some gua' =>
+            match optbytes_of_tok lla, optbytes_of_tok off, Z_of_dec hosts, bytes_of_tok ls, bytes_of_tok mf,
+                  names_of_toks [n1; n2; n3; n4; n5] with
+            | Some lla', Some off', Some h', Some ls', Some mf', Some ns =>
+                Some (VMac (mkMac m' cap' on' i4' gua' lla' off' h' ls' mf' ns))
+            | _, _, _, _, _, _ => None
+            end
+        | _, _, _, _, _ => None
+        end
+      else None
+  | [k; a; on; mf; n1; n2; n3; n4; n5; rt] =>
+      if String.eqb k "notif" then
+        match addr_of_tok a, bool_of_tok on, bytes_of_tok mf, names_of_toks [n1; n2; n3; n4; n5], bool_of_tok rt with
+        | Some a', Some on', Some mf', Some ns, Some rt' => Some (VNotif (mkNotif a' on' mf' ns rt'))
+        | _, _, _, _, _ => None
+        end
+      else None
+  | _ => None
+  end.
+
+Definition fill_line (idx : nat) : acc := mkAcc (Ok (mkLine (repeat 46 BUFSZ) idx)) (Some (repeat 46 idx)) DNone.
+Definition run_view (v : view) : string := finish false (fold_left step (flatten (ops_of v)) (fill_line 7)).
+
 Definition dispatch (kind : string) (args : list string) : string :=
+  (* vw KIND HEX: FastLog of a byte view on a line with index 7; "invalid" when IsValid reports an error
+     vs KIND HEX: String() = Logger.Msg("").Struct(p).ToString() with the package logger "packet"
+     ve KIND fields: FastLog of a table entry *)
+  if String.eqb kind "vw" || String.eqb kind "vs" then
+    match args with
+    | [k; h] =>
+        match kind_of_tok k, bytes_of_tok h with
+        | Some k', Some p =>
+            if negb (view_valid k' p) then out3 "invalid" "-" "-"
+            else if String.eqb kind "vw" then run_view (VBytes k' p)
+            else let m := s2b "packet" in
+                 finish false (fold_left step (flatten (ops_of (VBytes k' p)))
+                                 (mkAcc (msg_line (repeat 46 BUFSZ) m []) (Some (module7 m)) DNone))
+        | _, _ => BADARGS
+        end
+    | _ => BADARGS
+    end
+  else if String.eqb kind "ve" then
+    match entry_of args with
+    | Some v => run_view v
+    | None => BADARGS
+    end
+  else
   if String.eqb kind "line" || String.eqb kind "write" then
     match args with
     | f :: i :: toks =>
